@@ -220,7 +220,10 @@ func C13(c *core.Ctx) {
 			_, hn, set, _ := actionFacts(ci.(ssa.Instruction).Block())
 			c.Check("R2", "notify-gate", ci.Pos(), hn && set, "the downlink-data report is raised only when the action has NOCP")
 			args := core.CallArgs(ci)
-			_, p2 := core.FieldPath(args[2])
+			var p2 []string
+			if len(args) > 0 {
+				_, p2 = core.FieldPath(args[len(args)-1]) // the PDR id is the last argument
+			}
 			c.Check("R2", "notify-pdr", ci.Pos(), len(p2) >= 1 && p2[len(p2)-1] == "PDRID", "the notification names the PDR of the buffered packet")
 		}
 	}
@@ -242,7 +245,22 @@ func C13(c *core.Ctx) {
 		pop := p.Method(pkgBuff, "Server", "Pop")
 		write := p.Method(pkgFwd, "Gtp5g", "WritePacket")
 		pops := core.Calls(fn, pop)
-		c.Check("R3", "pop-sites", fn.Pos(), len(pops) == 2, fmt.Sprintf("%d Pop call sites in applyAction (DROP and FORW)", len(pops)))
+		// Pop sites are grouped by the per-PDR loop they belong to (a `for v, ok := Pop(); ok; v, ok = Pop()` loop
+		// has two sites feeding one phi); every PDR loop must drain
+		pdrHdrs := loopHeaderOfRange(fn, "PDRIDs")
+		armOfPop := func(in ssa.Instruction) *ssa.BasicBlock {
+			for _, h := range pdrHdrs {
+				if inNaturalLoop(in.Block(), h) {
+					return h
+				}
+			}
+			return nil
+		}
+		byArm := map[*ssa.BasicBlock][]ssa.CallInstruction{}
+		for _, ci := range pops {
+			byArm[armOfPop(ci.(ssa.Instruction))] = append(byArm[armOfPop(ci.(ssa.Instruction))], ci)
+		}
+		c.Check("R3", "pop-sites", fn.Pos(), len(byArm) == 2 && byArm[nil] == nil, fmt.Sprintf("%d Pop call sites in %d per-PDR loops of applyAction (DROP and FORW)", len(pops), len(byArm)))
 		// gate: FAR currently buffers
 		for _, ci := range pops {
 			in := ci.(ssa.Instruction)
@@ -270,8 +288,9 @@ func C13(c *core.Ctx) {
 			}
 			arm := "DROP"
 			isForw := false
+			myArm := armOfPop(in)
 			for _, w := range core.Calls(fn, write) {
-				if core.InstrDominates(in, w.(ssa.Instruction)) {
+				if core.InstrDominates(in, w.(ssa.Instruction)) || (myArm != nil && inNaturalLoop(w.(ssa.Instruction).Block(), myArm)) {
 					isForw = true
 				}
 			}
@@ -282,11 +301,53 @@ func C13(c *core.Ctx) {
 			c.Check("R3", "drain-own-session:"+arm, ci.Pos(), args[0] == ssa.Value(core.Param(fn, 0)) && pdrOK, "Pop is called with the function's own SEID and a PDR id taken from the FAR's PDR list")
 			// the pop loop ends only on !ok: the only edges leaving the pop loop come from the block testing ok
 			hdr := loopHeaderOf(in)
-			var okV ssa.Value
-			for _, r := range *ci.Value().Referrers() {
-				if ex, o := r.(*ssa.Extract); o && ex.Index == 1 {
-					okV = ex
+			if hdr == myArm || hdr == in.Block() && !inAnyLoop(in) {
+				// the priming Pop of a three-clause loop sits in front of the drain loop: judged with the
+				// Pop inside that loop
+				inner := false
+				for _, o := range byArm[myArm] {
+					if oh := loopHeaderOf(o.(ssa.Instruction)); oh != myArm && o != ci {
+						inner = true
+					}
 				}
+				if inner {
+					continue
+				}
+			}
+			var okVs []ssa.Value
+			for _, o := range byArm[myArm] {
+				for _, r := range *o.Value().Referrers() {
+					if ex, isEx := r.(*ssa.Extract); isEx && ex.Index == 1 {
+						okVs = append(okVs, ex)
+					}
+				}
+			}
+			var okV ssa.Value
+			if len(okVs) > 0 {
+				okV = okVs[0]
+			}
+			isOk := func(cond ssa.Value) bool {
+				for _, v := range okVs {
+					if isOkOrPhiOf(cond, v) {
+						return true
+					}
+				}
+				// a phi of the ok results of this arm's Pop calls only (priming call + call in the post statement)
+				if ph, isPhi := cond.(*ssa.Phi); isPhi {
+					for _, e := range ph.Edges {
+						found := false
+						for _, v := range okVs {
+							if e == v {
+								found = true
+							}
+						}
+						if !found {
+							return false
+						}
+					}
+					return len(ph.Edges) > 0
+				}
+				return false
 			}
 			exitsOK := okV != nil
 			for _, b := range fn.Blocks {
@@ -301,7 +362,7 @@ func C13(c *core.Ctx) {
 					if !hdr.Dominates(s) || !reachesBlock(s, hdr) {
 						// leaving the pop loop: must be the !ok edge
 						iff, isIf := b.Instrs[len(b.Instrs)-1].(*ssa.If)
-						if !isIf || !isOkOrPhiOf(iff.Cond, okV) {
+						if !isIf || !isOk(iff.Cond) {
 							exitsOK = false
 						}
 					}
@@ -338,11 +399,26 @@ func C13(c *core.Ctx) {
 		c.Check("R3", "write-once", fn.Pos(), len(ws) == 1, fmt.Sprintf("%d WritePacket call sites", len(ws)))
 		for _, w := range ws {
 			args := core.CallArgs(w)
-			pk, okP := args[2].(*ssa.Extract)
 			good := false
-			if okP && pk.Index == 0 {
-				if cl, ok := pk.Tuple.(*ssa.Call); ok && core.Callee(cl) == pop && w.(ssa.Instruction).Block() != nil {
-					good = core.InstrDominates(cl, w.(ssa.Instruction))
+			isPopped := func(v ssa.Value) bool {
+				pk, okP := v.(*ssa.Extract)
+				if !okP || pk.Index != 0 {
+					return false
+				}
+				cl, ok := pk.Tuple.(*ssa.Call)
+				return ok && core.Callee(cl) == pop
+			}
+			switch pv := args[2].(type) {
+			case *ssa.Extract:
+				if isPopped(pv) {
+					good = core.InstrDominates(pv.Tuple.(*ssa.Call), w.(ssa.Instruction))
+				}
+			case *ssa.Phi: // for pkt, ok := Pop(); ok; pkt, ok = Pop()
+				good = len(pv.Edges) > 0
+				for _, e := range pv.Edges {
+					if !isPopped(e) {
+						good = false
+					}
 				}
 			}
 			c.Check("R3", "write-popped", w.Pos(), good, "the packet written is the one just popped")
@@ -530,7 +606,41 @@ func c13PacketExtent(c *core.Ctx) {
 	n := 0
 	core.Instrs(fn, func(in ssa.Instruction) {
 		r, ok := in.(*ssa.Return)
-		if !ok || len(r.Results) < 4 {
+		if !ok || len(r.Results) == 0 {
+			return
+		}
+		// the packet result: the []byte among several results, or the []byte field of a result struct
+		var starts []ssa.Value
+		for _, res := range r.Results {
+			if sl, isSl := res.Type().Underlying().(*types.Slice); isSl {
+				if b, isB := sl.Elem().Underlying().(*types.Basic); isB && b.Kind() == types.Uint8 {
+					starts = append(starts, res)
+				}
+			}
+			if ld, isLd := res.(*ssa.UnOp); isLd && ld.Op == token.MUL {
+				if al, isAl := ld.X.(*ssa.Alloc); isAl {
+					for _, rr := range *al.Referrers() {
+						fa, isFA := rr.(*ssa.FieldAddr)
+						if !isFA {
+							continue
+						}
+						sl, isSl := core.FieldOfAddr(fa).Type().Underlying().(*types.Slice)
+						if !isSl {
+							continue
+						}
+						if b, isB := sl.Elem().Underlying().(*types.Basic); !isB || b.Kind() != types.Uint8 {
+							continue
+						}
+						for _, u := range *fa.Referrers() {
+							if st, isSt := u.(*ssa.Store); isSt && st.Addr == ssa.Value(fa) {
+								starts = append(starts, st.Val)
+							}
+						}
+					}
+				}
+			}
+		}
+		if len(starts) == 0 {
 			return
 		}
 		seen := map[ssa.Value]bool{}
@@ -599,7 +709,9 @@ func c13PacketExtent(c *core.Ctx) {
 				c.Check("R7", fmt.Sprintf("packet-extent#%d", n), r.Pos(), false, fmt.Sprintf("packet result has an unrecognised origin %T", v))
 			}
 		}
-		walk(r.Results[3])
+		for _, st := range starts {
+			walk(st)
+		}
 	})
 	c.Floor("R7", n, 1, "packet slices in decodbuffer")
 	_ = p
